@@ -40,6 +40,7 @@ EXTENDS FieldMapRule, Json, SequencesExt
 
 CONSTANTS MaxMaps,      \* mappings per declaration
           SrcNames, TgtNames,  \* which paths of the universe are in play (names below)
+          SrcKind,      \* "struct": the predecessors return VfmSrc | "map": they return a map[string]any, stream-natively, in chunks
           VarSet        \* variants of the predecessors' value in play (a case gets "full" and those of VarSet relevant to its sources)
 
 ----------------------------------------------------------------------------
@@ -57,6 +58,10 @@ TPMid == [k |-> "ptr", n |-> "*Mid", e |-> TMid]
 TMapM == [k |-> "map", n |-> "map[string]Mid", e |-> TMid]
 TDst == [k |-> "struct", n |-> "Dst", f |-> [S |-> TStr, N |-> TInt, A |-> TMid, B |-> TPMid, M |-> TMapS, MI |-> TMapI, MM |-> TMapM, X |-> TAny]]
 TSrc == [k |-> "struct", n |-> "Src", f |-> [S |-> TStr, N |-> TInt, A |-> TMid, B |-> TPMid, M |-> TMapS, X |-> TAny, W |-> TDst]]
+
+\* the predecessors' output type
+TMapSrc == [k |-> "map", n |-> "map[string]any", e |-> TAny]
+ST == IF SrcKind = "map" THEN TMapSrc ELSE TSrc
 
 (* Values *)
 VStr(s) == [k |-> "str", s |-> s]
@@ -117,11 +122,21 @@ SrcVal(pred, var) ==
              [] var = "AXnil" -> [b EXCEPT !.A = [MidVal(pred, "A") EXCEPT !.f.X = VNilAny]]
   IN VStruct(TSrc, f)
 
+(* Map-typed predecessor (SrcKind = "map"): the node is stream-native; in value mode the engine concatenates its chunks, in stream
+   mode the edge's field mapping, checker and converter work chunk by chunk.  Variant "dense" = one chunk with every key,
+   "sparse" = ONE KEY PER CHUNK (a mapped key is then absent from most chunks). *)
+MapVal(pred) == VMap(TMapSrc, ("s" :> VAny(VStr(Nm(pred, "s")))) @@ ("t" :> VAny(VStr(Nm(pred, "t")))) @@ ("n" :> VAny(VInt(5))) @@ ("i" :> VAny(LeafIn(pred, "i"))))
+PredVal(pred, var) == IF SrcKind = "map" THEN MapVal(pred) ELSE SrcVal(pred, var)
+PredChunks(pred, var) == IF SrcKind = "map" /\ var = "sparse"
+                         THEN LET m == MapVal(pred).m IN [i \in 1..4 |-> VMap(TMapSrc, (<<"i", "n", "s", "t">>[i] :> m[<<"i", "n", "s", "t">>[i]]))]
+                         ELSE <<PredVal(pred, var)>>
+
 ----------------------------------------------------------------------------
 (* Path universe *)
 SrcPath(n) == CASE n = "S" -> <<"S">> [] n = "N" -> <<"N">> [] n = "AIS" -> <<"A", "I", "S">> [] n = "BPS" -> <<"B", "P", "S">>
                 [] n = "Mk" -> <<"M", "k">> [] n = "XIS" -> <<"X", "I", "S">> [] n = "AX" -> <<"A", "X">> [] n = "AI" -> <<"A", "I">>
                 [] n = "A" -> <<"A">> [] n = "W" -> <<"W">> [] n = "all" -> <<>>
+                [] n = "ms" -> <<"s">> [] n = "mt" -> <<"t">> [] n = "mn" -> <<"n">> [] n = "miS" -> <<"i", "S">>
 TgtPath(n) == CASE n = "S" -> <<"S">> [] n = "N" -> <<"N">> [] n = "AIS" -> <<"A", "I", "S">> [] n = "AMk" -> <<"A", "M", "k">>
                 [] n = "BPS" -> <<"B", "P", "S">> [] n = "MIkS" -> <<"MI", "k", "S">> [] n = "MIkN" -> <<"MI", "k", "N">> [] n = "MMkIS" -> <<"MM", "k", "I", "S">>
                 [] n = "Xk" -> <<"X", "k">> [] n = "Xj" -> <<"X", "j">> [] n = "Xkj" -> <<"X", "k", "j">> [] n = "AI" -> <<"A", "I">> [] n = "A" -> <<"A">>
@@ -141,7 +156,7 @@ TypeAt(T, p) == TypeLoop(T, p, 1)
 Assignable(a, b) == IF a.n = b.n THEN "must" ELSE IF b.k = "any" THEN "must" ELSE IF a.k = "any" THEN "may" ELSE "mustnot"
 \* which run-time checker validateFieldMapping installs for a mapping: "none" | "hop" | "may"; "bad" = rejected statically
 Checker(s, t) ==
-  LET a == TypeAt(TSrc, s)
+  LET a == TypeAt(ST, s)
       b == TypeAt(TDst, t)
   IN IF ~a.ok \/ ~b.ok THEN "bad"
      ELSE IF b.inter THEN (IF b.t.k = "any" THEN "none" ELSE "bad")
@@ -203,7 +218,7 @@ TakePath(v, T, p, Fx) ==
 RECURSIVE FieldMapFrom(_, _, _, _, _, _)
 FieldMapFrom(maps, i, out, allowAbsent, Fx, acc) ==
   IF i > Len(maps) THEN [st |-> "ok", why |-> "", taken |-> acc]
-  ELSE LET r == TakePath(out, TSrc, maps[i].s, Fx) IN
+  ELSE LET r == TakePath(out, ST, maps[i].s, Fx) IN
        IF r.st = "ok" THEN FieldMapFrom(maps, i + 1, out, allowAbsent, Fx, acc \cup {[i |-> i, t |-> maps[i].t, v |-> r.v]})
        ELSE IF r.st = "absent" THEN (IF allowAbsent THEN FieldMapFrom(maps, i + 1, out, allowAbsent, Fx, acc)
                                      ELSE [st |-> "err", why |-> "absent-map-key", taken |-> {}])
@@ -264,26 +279,32 @@ ConvertAll(taken, Fx) == {ConvertSeq(Zero(TDst), sq, Fx) : sq \in {SetToSeq(take
 
 ----------------------------------------------------------------------------
 (* One call on the compiled workflow: the set of possible outcomes [kind, why, in] *)
-GroupTaken(decl, var, allowAbsent, Fx) == [g \in 1..Len(decl) |-> FieldMapFrom(decl[g].maps, 1, SrcVal(decl[g].pred, var), allowAbsent, Fx, {})]
-Retag(decl, gt) == UNION {{[i |-> <<g, x.i>>, t |-> x.t, v |-> x.v] : x \in gt[g].taken} : g \in 1..Len(decl)}
+\* the edge handler sees, per AddInput edge, the predecessor's value (value mode: the concatenated value) or each of its chunks
+Edges(decl, var, stream) == FlattenSeq([g \in 1..Len(decl) |->
+                               LET cs == IF stream THEN PredChunks(decl[g].pred, var) ELSE <<PredVal(decl[g].pred, var)>>
+                               IN [c \in 1..Len(cs) |-> [maps |-> decl[g].maps, val |-> cs[c]]]])
+GroupTaken(E, allowAbsent, Fx) == [e \in 1..Len(E) |-> FieldMapFrom(E[e].maps, 1, E[e].val, allowAbsent, Fx, {})]
+Retag(E, gt) == UNION {{[i |-> <<g, x.i>>, t |-> x.t, v |-> x.v] : x \in gt[g].taken} : g \in 1..Len(E)}
 Outcome(kind, why, in) == [kind |-> kind, why |-> why, in |-> in]
 InvokeOutcomes(decl, var, twice, Fx) ==
-  LET gt == GroupTaken(decl, var, FALSE, Fx)
-      G == 1..Len(decl)
-      chk == [g \in G |-> IF gt[g].st = "ok" THEN CheckGroup(decl[g].maps, gt[g].taken, Fx) ELSE "skip"]
+  LET E == Edges(decl, var, FALSE)
+      gt == GroupTaken(E, FALSE, Fx)
+      G == 1..Len(E)
+      chk == [g \in G |-> IF gt[g].st = "ok" THEN CheckGroup(E[g].maps, gt[g].taken, Fx) ELSE "skip"]
   IN IF \E g \in G : gt[g].st = "panic" THEN {Outcome("panic", gt[CHOOSE g \in G : gt[g].st = "panic"].why, {})}
      ELSE IF \E g \in G : chk[g] = "panic" THEN {Outcome("panic", "checker-on-nil", {})}
      ELSE IF \E g \in G : gt[g].st = "err" \/ chk[g] = "err" THEN {Outcome("err", "edge-handler", {})}
      ELSE IF twice /\ "D7" \notin Fx THEN {Outcome("panic", "converter-applied-twice", {})}
-     ELSE {IF r.ok THEN Outcome("ok", "", Flat(r.v, <<>>, FALSE)) ELSE Outcome("panic", "convertTo-must-succeed", {}) : r \in ConvertAll(Retag(decl, gt), Fx)}
+     ELSE {IF r.ok THEN Outcome("ok", "", Flat(r.v, <<>>, FALSE)) ELSE Outcome("panic", "convertTo-must-succeed", {}) : r \in ConvertAll(Retag(E, gt), Fx)}
 StreamOutcomes(decl, var, twice, Fx) ==
-  LET gt == GroupTaken(decl, var, "D19" \notin Fx, Fx)
-      G == 1..Len(decl)
-      chk == [g \in G |-> IF gt[g].st = "ok" THEN CheckGroup(decl[g].maps, gt[g].taken, Fx) ELSE "skip"]
+  LET E == Edges(decl, var, TRUE)           \* one entry per (edge, chunk): every chunk is mapped, checked and converted on its own;
+      gt == GroupTaken(E, "D19" \notin Fx, Fx)  \* a mapped key absent from a chunk is skipped and the checker only sees the keys present
+      G == 1..Len(E)
+      chk == [g \in G |-> IF gt[g].st = "ok" THEN CheckGroup(E[g].maps, gt[g].taken, Fx) ELSE "skip"]
       conv == [g \in G |-> ConvertAll({[i |-> x.i, t |-> x.t, v |-> x.v] : x \in gt[g].taken}, Fx)]
   IN \* as coded the checker's transform turns the chunk type into `any`: with one predecessor the pre-node converter panics on
      \* the run loop, with several the stream merge in front of it refuses the chunk type (an error)
-     IF "D16" \notin Fx /\ \E g \in G : HasChecker(decl[g].maps)
+     IF "D16" \notin Fx /\ \E g \in 1..Len(decl) : HasChecker(decl[g].maps)
      THEN {IF Len(decl) = 1 THEN Outcome("panic", "stream-checker-chunk-type", {}) ELSE Outcome("err", "stream-checker-chunk-type", {})}
      ELSE IF twice /\ "D7" \notin Fx THEN {Outcome("panic", "converter-applied-twice", {})}
      \* everything below runs inside the lazily evaluated stream conversion, i.e. in the successor's goroutine: a panic there is
@@ -296,7 +317,7 @@ StreamOutcomes(decl, var, twice, Fx) ==
 PredsOf(decl) == {decl[g].pred : g \in 1..Len(decl)}
 ModelLine(decl, var, twice, Fx) ==
   LET c == CompileOutcome(decl, Fx)
-      outs == SetToSeq({[pred |-> p, h |-> p, flat |-> SetToSeq(Flat(SrcVal(p, var), <<>>, TRUE))] : p \in PredsOf(decl)})
+      outs == SetToSeq({[pred |-> p, h |-> p, flat |-> SetToSeq(Flat(PredVal(p, var), <<>>, TRUE))] : p \in PredsOf(decl)})
       o == SetToSeq({[pred |-> p, b |-> p, a |-> p] : p \in PredsOf(decl)})
       mk(mode, S) == SetToSeq({[mode |-> mode, kind |-> x.kind, why |-> x.why, in |-> SetToSeq(x.in), got |-> x.kind = "ok", o |-> o] : x \in S})
       ri == IF c = "ok" THEN mk("invoke", InvokeOutcomes(decl, var, twice, Fx)) ELSE <<>>
@@ -304,7 +325,9 @@ ModelLine(decl, var, twice, Fx) ==
   IN [decl |-> decl, compile |-> [ok |-> c = "ok", cls |-> IF c = "ok" THEN "" ELSE c], outs |-> outs,
       runs |-> ri \o rs, ri |-> Len(ri), rs |-> Len(rs)]
 
-AllFixes == {"D6", "D7", "D16", "D17", "D18", "D19", "D20", "D21"}
+\* D19 (absent source key: error in value form, skipped in stream form) is NOT among the repairs: refusing an absent key in the stream
+\* form would break sources that legitimately arrive as sparse chunks (PredChunks); it stays a named deviation (known finding)
+AllFixes == {"D6", "D7", "D16", "D17", "D18", "D20", "D21"}
 
 ----------------------------------------------------------------------------
 (* Generator: declarations grown mapping by mapping *)
@@ -321,24 +344,30 @@ AddToLast(pr) == /\ phase = "grow" /\ Len(decl) > 0 /\ NMaps < MaxMaps
 OpenGroup(pr) == /\ phase = "grow" /\ Len(decl) < 2 /\ NMaps < MaxMaps
                  /\ decl' = Append(decl, [pred |-> IF Len(decl) = 0 THEN "p1" ELSE "p2", maps |-> <<Mk(pr)>>]) /\ UNCHANGED <<var, phase>>
 UsesSrc(names) == \E m \in Range(AllMaps(decl)) : \E n \in names : IsPrefix(SrcPath(n), m.s) /\ n # "all"
-Relevant == {"full"} \cup (VarSet \cap
+Relevant == IF SrcKind = "map" THEN {"dense", "sparse"} ELSE {"full"} \cup (VarSet \cap
                ((IF UsesSrc({"BPS"}) THEN {"nilB", "nilBP"} ELSE {}) \cup (IF UsesSrc({"Mk"}) THEN {"nokey", "nilM"} ELSE {})
                \cup (IF UsesSrc({"XIS"}) THEN {"Xptr", "Xmap", "Xmapmap", "Xmapint", "Xstr", "Xnil"} ELSE {})
                \cup (IF UsesSrc({"AX"}) THEN {"AXint", "AXnil"} ELSE {})))
 Finish(v) == /\ phase = "grow" /\ Len(decl) > 0 /\ v \in Relevant /\ var' = v /\ phase' = "done" /\ UNCHANGED decl
-GenNext == (\E pr \in Pairs : AddToLast(pr) \/ OpenGroup(pr)) \/ (\E v \in Variants : Finish(v))
+GenNext == (\E pr \in Pairs : AddToLast(pr) \/ OpenGroup(pr)) \/ (\E v \in Variants \cup {"dense", "sparse"} : Finish(v))
 GenSpec == GenInit /\ [][GenNext]_vars
 
 Reasons(line) == {r[2] : r \in Judge(line)}
 \* Impl with every proposed repair satisfies the rule (also with a second Compile)
-FixedDesignHolds == phase = "done" => (Judge(ModelLine(decl, var, FALSE, AllFixes)) = {} /\ Judge(ModelLine(decl, var, TRUE, AllFixes)) = {})
+RepoFixes == {"D6", "D7", "D16", "D17", "D18", "D20"}
+Allowed == IF var \in {"nokey", "nilM"} THEN {"missing-source-handled-differently"} ELSE {}
+FixedDesignHolds == phase = "done" => (Reasons(ModelLine(decl, var, FALSE, AllFixes)) \subseteq Allowed /\ Reasons(ModelLine(decl, var, TRUE, AllFixes)) \subseteq Allowed)
 \* the unrepaired Impl: what it predicts is printed with the case (pred) and compared with the verdict on the real code
 Emit == phase = "done" =>
   PrintT(<<"CASE", ToJson([decl |-> [g \in 1..Len(decl) |-> [pred |-> decl[g].pred, maps |-> [i \in 1..Len(decl[g].maps) |->
                                        [s |-> decl[g].maps[i].s, t |-> decl[g].maps[i].t, k |-> decl[g].maps[i].k]]]],
                            var |-> var, chk |-> \E g \in 1..Len(decl) : HasChecker(decl[g].maps), pred |-> SetToSeq(Reasons(ModelLine(decl, var, FALSE, {}))),
-                           pred2 |-> SetToSeq(Reasons(ModelLine(decl, var, TRUE, {})))])>>)
+                           pred2 |-> SetToSeq(Reasons(ModelLine(decl, var, TRUE, {}))),
+                           \* the same for the tree with the repairs that have been applied upstream of this check (fixed: lines)
+                           predf |-> SetToSeq(Reasons(ModelLine(decl, var, FALSE, RepoFixes))),
+                           predf2 |-> SetToSeq(Reasons(ModelLine(decl, var, TRUE, RepoFixes)))])>>)
 \* the predecessors' values of the model, for the cross-check with the harness
-SrcFlats == \A v \in Variants : PrintT(<<"SRCFLAT", v, ToJson(SetToSeq(Flat(SrcVal("p1", v), <<>>, TRUE)))>>)
+SrcFlats == IF SrcKind = "map" THEN \A v \in {"dense", "sparse"} : PrintT(<<"SRCFLAT", v, ToJson(SetToSeq(Flat(MapVal("p1"), <<>>, TRUE)))>>)
+            ELSE \A v \in Variants : PrintT(<<"SRCFLAT", v, ToJson(SetToSeq(Flat(SrcVal("p1", v), <<>>, TRUE)))>>)
 ASSUME SrcFlats
 =============================================================================
